@@ -1,11 +1,561 @@
-(* Proofs for the upload pipeline model. *)
+(* Proofs for the upload pipeline model: for every batch size, upload list
+   (with duplicates), action outcome and every result of every storage call. *)
 From Coq Require Import Lia.
 From VF Require Import Upload.Model Upload.Spec.
 Open Scope N_scope.
+
+(* ---- sets as lists ------------------------------------------------------------ *)
+
+Lemma memN_In : forall d l, memN d l = true <-> In d l.
+Proof.
+  intros d l. unfold memN. rewrite existsb_exists. split.
+  - intros (x & Hin & He). apply N.eqb_eq in He. subst. exact Hin.
+  - intros H. exists d. split; [exact H | apply N.eqb_refl].
+Qed.
+
+Lemma memN_addN : forall d x l, memN d (addN x l) = (d =? x) || memN d l.
+Proof.
+  intros d x l. induction l as [|y t IH]; cbn.
+  - reflexivity.
+  - destruct (x =? y) eqn:Exy.
+    + apply N.eqb_eq in Exy. subst y. cbn.
+      destruct (d =? x); reflexivity.
+    + destruct (x <? y); cbn.
+      * reflexivity.
+      * fold (memN d (addN x t)). rewrite IH. fold (memN d t).
+        destruct (d =? y), (d =? x); reflexivity.
+Qed.
+
+Lemma memN_fold_addN : forall d l cas,
+  memN d (fold_right addN cas l) = memN d l || memN d cas.
+Proof.
+  intros d l cas. induction l as [|x t IH]; cbn [fold_right].
+  - reflexivity.
+  - rewrite memN_addN, IH. cbn. fold (memN d t). destruct (d =? x); reflexivity.
+Qed.
+
+(* ---- one flush ------------------------------------------------------------------ *)
+
+Lemma first_failure_zero : forall ps, first_failure ps = 0 -> forall p, In p ps -> snd p = 0.
+Proof.
+  intros ps H p Hin. unfold first_failure in H.
+  destruct (filter (fun p => negb (snd p =? 0)) ps) as [|q t] eqn:E.
+  - destruct (snd p =? 0) eqn:Ep; [apply N.eqb_eq in Ep; exact Ep|].
+    assert (In p (filter (fun p => negb (snd p =? 0)) ps)) as Hf
+      by (apply filter_In; split; [exact Hin | rewrite Ep; reflexivity]).
+    rewrite E in Hf. destruct Hf.
+  - assert (In q (filter (fun p => negb (snd p =? 0)) ps)) as Hf by (rewrite E; left; reflexivity).
+    apply filter_In in Hf. destruct Hf as (_ & Hq). rewrite H in Hq. discriminate.
+Qed.
+
+Lemma first_failure_nonzero : forall ps,
+  existsb (fun p => negb (snd p =? 0)) ps = true -> first_failure ps <> 0.
+Proof.
+  intros ps H Hz. apply existsb_exists in H. destruct H as (p & Hin & Hp).
+  rewrite (first_failure_zero ps Hz p Hin) in Hp. discriminate.
+Qed.
+
+Lemma eff_nil : forall o, eff [] o = [].
+Proof.
+  intros o. unfold eff. destruct (o_fm o =? 0); [|reflexivity].
+  induction (o_puts o) as [|p t IH]; cbn; [reflexivity | exact IH].
+Qed.
+
+Lemma flush_error_sticky : forall ferr exp o, ferr <> 0 -> flush_error ferr exp o <> 0.
+Proof.
+  intros ferr exp o H. unfold flush_error.
+  destruct (o_fm o =? 0) eqn:Efm; cbn.
+  - destruct exp as [|e t]; [exact H|].
+    destruct (first_failure (eff (e :: t) o) =? 0) eqn:Eff; cbn [negb].
+    + destruct (forallb _ _); [exact H | discriminate].
+    + apply N.eqb_neq in Eff. exact Eff.
+  - apply N.eqb_neq in Efm. exact Efm.
+Qed.
+
+Lemma flush_error_zero : forall ferr exp o,
+  flush_error ferr exp o = 0 ->
+  ferr = 0 /\ forall d, In d exp -> In d (stored exp o).
+Proof.
+  intros ferr exp o H. unfold flush_error in H.
+  destruct (o_fm o =? 0) eqn:Efm; cbn in H.
+  2:{ apply N.eqb_neq in Efm. contradiction. }
+  destruct exp as [|e t]; [split; [exact H | intros d []]|].
+  destruct (first_failure (eff (e :: t) o) =? 0) eqn:Eff; cbn [negb] in H.
+  2:{ apply N.eqb_neq in Eff. contradiction. }
+  apply N.eqb_eq in Eff.
+  destruct (forallb (was_put (eff (e :: t) o)) (e :: t)) eqn:Eall; [|discriminate].
+  split; [exact H|].
+  intros d Hd. rewrite forallb_forall in Eall. specialize (Eall d Hd).
+  unfold was_put in Eall. apply existsb_exists in Eall. destruct Eall as (p & Hp & Hpd).
+  apply N.eqb_eq in Hpd. unfold stored. apply in_map_iff. exists p. split; [exact Hpd|].
+  apply filter_In. split; [exact Hp|].
+  rewrite (first_failure_zero _ Eff p Hp). reflexivity.
+Qed.
+
+Definition safe (b : bstore) (cas : list N) (d : N) : Prop :=
+  memN d cas = true \/ memN d (keys b) = true \/ b_ferr b <> 0.
+
+Lemma flush_locked_spec : forall b cas o b' cas' used,
+  flush_locked b cas o = (b', cas', used) ->
+  b_pending b' = [] /\
+  used = map snd (b_pending b) /\
+  (b_ferr b <> 0 -> b_ferr b' <> 0) /\
+  (forall d, memN d cas = true -> memN d cas' = true) /\
+  (b_ferr b' = 0 -> forall d, safe b cas d -> memN d cas' = true) /\
+  (forall ret, call_failed (flush_call b cas o ret) = true -> b_ferr b' <> 0).
+Proof.
+  intros b cas o b' cas' used H. unfold flush_locked in H. inversion H; subst; clear H. cbn.
+  split; [reflexivity|]. split; [reflexivity|]. split; [apply flush_error_sticky|].
+  split.
+  { intros d Hd. rewrite memN_fold_addN, Hd. apply orb_true_r. }
+  split.
+  { intros Hz d Hs. apply flush_error_zero in Hz. destruct Hz as (Hf & Hst).
+    rewrite memN_fold_addN. destruct Hs as [Hc | [Hk | Hf']]; [rewrite Hc; apply orb_true_r | | contradiction].
+    destruct (memN d cas) eqn:Ec; [apply orb_true_r|]. rewrite orb_false_r.
+    apply memN_In. apply Hst. unfold expected. apply filter_In. split.
+    - apply memN_In. exact Hk.
+    - rewrite Ec. reflexivity. }
+  intros ret Hcf. unfold call_failed, flush_call in Hcf. cbn in Hcf.
+  unfold flush_error. destruct (o_fm o =? 0) eqn:Efm; cbn in *.
+  - destruct (expected b cas) as [|e t] eqn:Eexp.
+    + rewrite eff_nil in Hcf. discriminate.
+    + apply first_failure_nonzero in Hcf.
+      destruct (first_failure (eff (e :: t) o) =? 0) eqn:Eff; cbn [negb].
+      * apply N.eqb_eq in Eff. contradiction.
+      * exact Hcf.
+  - apply N.eqb_neq in Efm. exact Efm.
+Qed.
+
+(* ---- the batching layer's Put and flush ------------------------------------------ *)
+
+Lemma memN_app : forall d l1 l2, memN d (l1 ++ l2) = memN d l1 || memN d l2.
+Proof. intros. unfold memN. apply existsb_app. Qed.
+
+Lemma keys_snoc : forall l d buf f, keys (mkB (l ++ [(d, buf)]) f) = keys (mkB l f) ++ [d].
+Proof. intros. unfold keys. cbn. rewrite map_app. reflexivity. Qed.
+
+Lemma bput_spec : forall batch b cas d buf o b1 cas1 c used ok,
+  bput batch b cas d buf o = (b1, cas1, c, used, ok) ->
+  (b_ferr b <> 0 -> b_ferr b1 <> 0) /\
+  (forall x, safe b cas x -> safe b1 cas1 x) /\
+  (oc_ret c = 0 -> safe b1 cas1 d) /\
+  (oc_ret c <> 0 -> b_ferr b1 <> 0) /\
+  (call_failed c = true -> b_ferr b1 <> 0).
+Proof.
+  intros batch b cas d buf o b1 cas1 c used ok H. unfold bput in H.
+  destruct (memN d (keys b)) eqn:Ek.
+  { inversion H; subst; clear H. cbn.
+    repeat split; try tauto; try discriminate.
+    intros _. right. left. exact Ek. }
+  destruct (batch <=? length (b_pending b))%nat eqn:Efull.
+  - destruct (flush_locked b cas (match o with Some x => x | None => no_oracle end))
+      as [[b' cas'] used'] eqn:Efl.
+    destruct (flush_locked_spec _ _ _ _ _ _ Efl) as (Hp & _ & Hst & Hmono & Hsafe & Hcf).
+    destruct (b_ferr b' =? 0) eqn:Ez; cbn [negb] in H; inversion H; subst; clear H.
+    + apply N.eqb_eq in Ez. cbn.
+      split; [intros Hb; apply Hst in Hb; contradiction|].
+      split; [intros x Hx; left; apply Hsafe; assumption|].
+      split; [intros _; right; left; rewrite Hp; cbn; rewrite N.eqb_refl; reflexivity|].
+      split; [intros Hn; contradiction|].
+      intros Hc. apply Hcf in Hc. contradiction.
+    + apply N.eqb_neq in Ez. cbn.
+      split; [intros _; exact Ez|].
+      split; [intros x _; right; right; exact Ez|].
+      split; [intros Hr; contradiction|].
+      split; intros _; exact Ez.
+  - destruct (b_ferr b =? 0) eqn:Ez; cbn [negb] in H; inversion H; subst; clear H.
+    + apply N.eqb_eq in Ez. cbn.
+      split; [intros Hb; contradiction|].
+      split.
+      { intros x [Hx | [Hx | Hx]]; [left; exact Hx | | contradiction].
+        right. left. rewrite keys_snoc, memN_app.
+        replace (keys (mkB (b_pending b) (b_ferr b))) with (keys b) by reflexivity.
+        rewrite Hx. reflexivity. }
+      split.
+      { intros _. right. left. rewrite keys_snoc, memN_app. cbn. rewrite N.eqb_refl. apply orb_true_r. }
+      split; [intros Hn; contradiction | discriminate].
+    + apply N.eqb_neq in Ez. cbn.
+      split; [intros _; exact Ez|].
+      split; [intros x Hx; exact Hx|].
+      split; [intros Hr; contradiction|].
+      split; [intros _; exact Ez | discriminate].
+Qed.
+
+Lemma bflush_spec : forall b cas o b1 cas1 c used ok,
+  bflush b cas o = (b1, cas1, c, used, ok) ->
+  b1 = binit /\
+  used = map snd (b_pending b) /\
+  (b_ferr b <> 0 -> oc_ret c <> 0) /\
+  (call_failed c = true -> oc_ret c <> 0) /\
+  (forall x, memN x cas = true -> memN x cas1 = true) /\
+  (oc_ret c = 0 -> forall x, safe b cas x -> memN x cas1 = true).
+Proof.
+  intros b cas o b1 cas1 c used ok H. unfold bflush in H.
+  destruct (flush_locked b cas o) as [[b' cas'] used'] eqn:Efl.
+  destruct (flush_locked_spec _ _ _ _ _ _ Efl) as (Hp & Hu & Hst & Hmono & Hsafe & Hcf).
+  inversion H; subst; clear H. cbn.
+  split; [reflexivity|]. split; [reflexivity|].
+  split; [exact Hst|]. split; [apply Hcf|]. split; [exact Hmono | exact Hsafe].
+Qed.
+
+(* ---- the innermost executor's uploads --------------------------------------------- *)
+
+Lemma local_uploads_spec : forall batch bs b cas i os code b2 cas2 cs used ok code2,
+  local_uploads batch b cas bs i os code = (b2, cas2, cs, used, ok, code2) ->
+  length cs = length bs /\
+  (b_ferr b <> 0 -> b_ferr b2 <> 0) /\
+  (forall x, safe b cas x -> safe b2 cas2 x) /\
+  (forall x, In x (acked bs cs) -> safe b2 cas2 x) /\
+  (existsb call_failed cs = true -> b_ferr b2 <> 0) /\
+  (code <> 0 -> code2 <> 0) /\
+  (code2 = 0 -> code = 0 /\ acked bs cs = map bl_dig bs).
+Proof.
+  intros batch bs. induction bs as [|x bs IH]; intros b cas i os code b2 cas2 cs used ok code2 H.
+  - cbn in H. inversion H; subst; clear H. cbn.
+    repeat split; try tauto; try discriminate.
+  - cbn [local_uploads] in H.
+    destruct (bput batch b cas (bl_dig x) i (hd None os)) as [[[[b1 cas1] c] u1] ok1] eqn:Ep.
+    destruct (local_uploads batch b1 cas1 bs (S i) (tl os) (if code =? 0 then oc_ret c else code))
+      as [[[[[b2' cas2'] cs'] u2] ok2] code2'] eqn:El.
+    inversion H; subst; clear H.
+    destruct (bput_spec _ _ _ _ _ _ _ _ _ _ _ Ep) as (P1 & P2 & P3 & P4 & P5).
+    destruct (IH _ _ _ _ _ _ _ _ _ _ _ El) as (L0 & L1 & L2 & L3 & L4 & L5 & L6).
+    split; [cbn; rewrite L0; reflexivity|].
+    split; [intros Hb; apply L1, P1, Hb|].
+    split; [intros y Hy; apply L2, P2, Hy|].
+    split.
+    { intros y Hy. cbn [acked] in Hy. destruct (oc_ret c =? 0) eqn:Er.
+      - destruct Hy as [Hy | Hy]; [subst y; apply L2, P3; apply N.eqb_eq; exact Er | apply L3; exact Hy].
+      - apply L3; exact Hy. }
+    split.
+    { intros Hc. cbn [existsb] in Hc. apply orb_true_iff in Hc. destruct Hc as [Hc | Hc].
+      - apply L1, P5, Hc.
+      - apply L4, Hc. }
+    split.
+    { intros Hc. apply L5. destruct (code =? 0) eqn:Ec; [apply N.eqb_eq in Ec; contradiction | exact Hc]. }
+    intros Hz. destruct (L6 Hz) as (Hc1 & Hack).
+    destruct (code =? 0) eqn:Ec.
+    + apply N.eqb_eq in Ec. split; [exact Ec|].
+      cbn [acked map]. rewrite Hc1, N.eqb_refl, Hack. reflexivity.
+    + apply N.eqb_neq in Ec. contradiction.
+Qed.
+
+(* ---- responses ------------------------------------------------------------------------ *)
 
 Lemma attach_code_nonzero : forall r c, c <> 0 -> r_code (attach r c) <> 0.
 Proof.
   intros r c Hc. unfold attach. destruct (r_code r =? 0) eqn:E; cbn.
   - exact Hc.
   - apply N.eqb_neq in E. exact E.
+Qed.
+
+Lemma attach_keeps_error : forall r c, r_code r <> 0 -> attach r c = r.
+Proof.
+  intros r c H. unfold attach. apply N.eqb_neq in H. rewrite H. reflexivity.
+Qed.
+
+Lemma digs_of_incl : forall k bs d, In d (digs_of k bs) -> In d (map bl_dig bs).
+Proof.
+  intros k bs d H. unfold digs_of in H. apply in_map_iff in H. destruct H as (x & Hx & Hin).
+  apply filter_In in Hin. apply in_map_iff. exists x. tauto.
+Qed.
+
+Lemma hd_error_incl : forall (l : list N) d, In d (opt_list (hd_error l)) -> In d l.
+Proof. intros [|x t] d H; cbn in H; [destruct H | destruct H as [H | []]; left; exact H]. Qed.
+
+Lemma refs_local_incl : forall a code d, In d (refs (local_resp a code)) -> In d (map bl_dig (a_blobs a)).
+Proof.
+  intros a code d H. unfold refs, local_resp in H. cbn in H.
+  repeat (apply in_app_or in H; destruct H as [H | H]);
+    eauto using digs_of_incl, hd_error_incl.
+Qed.
+
+(* ---- one action through caching(flushing(local)) ------------------------------------------ *)
+
+Section Action.
+  Variables (batch : nat) (b : bstore) (cas : list N) (a : action) (ao : aoracle).
+  Variables (b2 : bstore) (cas2 : list N) (o : oaction) (fits : bool).
+  Hypothesis Hrun : run_action batch b cas a ao = (b2, cas2, o, fits).
+
+  (* the pieces of run_action *)
+  Lemma run_action_inv :
+    exists b1 cas1 calls used1 ok1 code1 fcall used2 ok2,
+      local_uploads batch b cas (a_blobs a) 0 (ao_puts ao) (a_status a) = (b1, cas1, calls, used1, ok1, code1) /\
+      bflush b1 cas1 (ao_flush ao) = (b2, cas2, fcall, used2, ok2) /\
+      let r1 := local_resp a code1 in
+      let r2 := if negb (oc_ret fcall =? 0) then prune (attach r1 (oc_ret fcall)) else r1 in
+      let cacheable := negb (a_dnc a) && successful r2 in
+      oa_puts o = calls /\ oa_flush o = fcall /\ oa_cas o = cas2 /\
+      oa_final o = Some (cacheable, ao_final ao) /\
+      oa_resp o = (if ao_final ao =? 0 then set_msg r2 (if cacheable then 1 else 2) else attach r2 (ao_final ao)) /\
+      oa_ac o = (if cacheable && (ao_final ao =? 0) then Some (refs r2) else None) /\
+      oa_closes o = map (fun i => count_nat i (used1 ++ used2)) (seq 0 (length (a_blobs a))).
+  Proof.
+    unfold run_action in Hrun.
+    destruct (local_uploads batch b cas (a_blobs a) 0 (ao_puts ao) (a_status a))
+      as [[[[[b1 cas1] calls] used1] ok1] code1] eqn:El.
+    destruct (bflush b1 cas1 (ao_flush ao)) as [[[[b2' cas2'] fcall] used2] ok2] eqn:Ef.
+    inversion Hrun; subst; clear Hrun.
+    exists b1, cas1, calls, used1, ok1, code1, fcall, used2, ok2. cbv zeta.
+    split; [reflexivity|]. split; [exact Ef|]. cbn [oa_puts oa_flush oa_cas oa_final oa_resp oa_ac oa_closes].
+    repeat split; reflexivity.
+  Qed.
+
+  (* A write acknowledged by the batching layer is stored by the time the
+     flush reports success (otherwise that flush reports an error). *)
+  Lemma ack_stored_or_reported_l :
+    oc_ret (oa_flush o) = 0 ->
+    forall d, In d (acked (a_blobs a) (oa_puts o)) -> memN d (oa_cas o) = true.
+  Proof.
+    destruct run_action_inv as (b1 & cas1 & calls & used1 & ok1 & code1 & fcall & used2 & ok2 & El & Ef & Hp & Hfl & Hcas & _).
+    rewrite Hp, Hfl, Hcas. intros Hz d Hd.
+    destruct (local_uploads_spec _ _ _ _ _ _ _ _ _ _ _ _ _ El) as (_ & _ & _ & L3 & _).
+    destruct (bflush_spec _ _ _ _ _ _ _ _ Ef) as (_ & _ & _ & _ & _ & F).
+    apply F; [exact Hz | apply L3; exact Hd].
+  Qed.
+
+  Lemma upload_failure_flush_fails :
+    upload_failed o = true -> oc_ret (oa_flush o) <> 0.
+  Proof.
+    destruct run_action_inv as (b1 & cas1 & calls & used1 & ok1 & code1 & fcall & used2 & ok2 & El & Ef & Hp & Hfl & _).
+    unfold upload_failed. rewrite Hp, Hfl. intros H.
+    destruct (local_uploads_spec _ _ _ _ _ _ _ _ _ _ _ _ _ El) as (_ & _ & _ & _ & L4 & _).
+    destruct (bflush_spec _ _ _ _ _ _ _ _ Ef) as (_ & _ & F1 & F2 & _).
+    apply orb_true_iff in H. destruct H as [H | H].
+    - apply orb_true_iff in H. destruct H as [H | H].
+      + apply F1, L4, H.
+      + apply F2, H.
+    - apply negb_true_iff, N.eqb_neq in H. exact H.
+  Qed.
+
+  (* Any failed storage call of the upload phase, or a failed flush: the
+     response carries an error, nothing is cached, no digests advertised. *)
+  Lemma failure_pruned_l :
+    upload_failed o = true ->
+    r_code (oa_resp o) <> 0 /\ oa_ac o = None /\ advertises_nothing (oa_resp o) = true.
+  Proof.
+    intros Hf. pose proof (upload_failure_flush_fails Hf) as Hret.
+    destruct run_action_inv as (b1 & cas1 & calls & used1 & ok1 & code1 & fcall & used2 & ok2 & El & Ef & Hp & Hfl & _ & _ & Hresp & Hac & _).
+    rewrite Hfl in Hret. apply N.eqb_neq in Hret. rewrite Hret in Hresp, Hac. cbn [negb] in Hresp, Hac.
+    apply N.eqb_neq in Hret.
+    set (r2 := prune (attach (local_resp a code1) (oc_ret fcall))) in *.
+    assert (Hc : r_code r2 <> 0) by (unfold r2, prune; cbn; apply attach_code_nonzero; exact Hret).
+    assert (Hs : successful r2 = false).
+    { unfold successful. apply N.eqb_neq in Hc. rewrite Hc. reflexivity. }
+    rewrite Hs, andb_false_r in Hresp, Hac. cbn in Hac.
+    rewrite Hresp, Hac. split; [|split; [reflexivity|]].
+    - destruct (ao_final ao =? 0); [cbn; exact Hc | rewrite attach_keeps_error; exact Hc].
+    - destruct (ao_final ao =? 0); [reflexivity | rewrite attach_keeps_error; [reflexivity | exact Hc]].
+  Qed.
+
+  Lemma final_failure_l :
+    final_failed o = true -> r_code (oa_resp o) <> 0 /\ oa_ac o = None.
+  Proof.
+    destruct run_action_inv as (b1 & cas1 & calls & used1 & ok1 & code1 & fcall & used2 & ok2 & El & Ef & _ & _ & _ & Hfin & Hresp & Hac & _).
+    unfold final_failed. rewrite Hfin. intros H. apply negb_true_iff in H.
+    rewrite H in Hresp, Hac. rewrite andb_false_r in Hac. split; [|exact Hac].
+    rewrite Hresp. apply attach_code_nonzero. apply N.eqb_neq. exact H.
+  Qed.
+
+  (* An AC entry is written only for a cacheable, successful action, and
+     everything the stored result references is in the CAS. *)
+  Lemma ac_only_complete_l : forall rs,
+    oa_ac o = Some rs ->
+    a_dnc a = false /\ r_code (oa_resp o) = 0 /\ r_exit (oa_resp o) = 0 /\
+    forall d, In d rs -> memN d (oa_cas o) = true.
+  Proof.
+    intros rs Hsome.
+    pose proof ack_stored_or_reported_l as Hack.
+    destruct run_action_inv as (b1 & cas1 & calls & used1 & ok1 & code1 & fcall & used2 & ok2 & El & Ef & Hp & Hfl & Hcas & _ & Hresp & Hac & _).
+    rewrite Hac in Hsome.
+    destruct (negb (a_dnc a)) eqn:Ednc; [|discriminate].
+    destruct (oc_ret fcall =? 0) eqn:Eret; cbn [negb] in *.
+    2:{ (* flush failed: not successful *)
+      apply N.eqb_neq in Eret.
+      assert (Hc : r_code (prune (attach (local_resp a code1) (oc_ret fcall))) <> 0)
+        by (unfold prune; cbn; apply attach_code_nonzero; exact Eret).
+      unfold successful in Hsome. apply N.eqb_neq in Hc. rewrite Hc in Hsome. discriminate. }
+    destruct (successful (local_resp a code1)) eqn:Es; [|discriminate].
+    destruct (ao_final ao =? 0) eqn:Efin; [|discriminate].
+    cbn in Hsome. inversion Hsome; subst rs; clear Hsome.
+    unfold successful in Es. apply andb_true_iff in Es. destruct Es as (Ec & Ee).
+    apply N.eqb_eq in Ec, Ee. cbn in Ec, Ee.
+    split; [apply negb_true_iff; exact Ednc|].
+    rewrite Hresp. cbn. split; [exact Ec | split; [exact Ee|]].
+    intros d Hd. apply refs_local_incl in Hd.
+    destruct (local_uploads_spec _ _ _ _ _ _ _ _ _ _ _ _ _ El) as (_ & _ & _ & _ & _ & _ & L6).
+    destruct (L6 Ec) as (_ & Hall).
+    apply Hack.
+    - rewrite Hfl. apply N.eqb_eq. exact Eret.
+    - rewrite Hp, Hall. exact Hd.
+    - exact 0.
+  Qed.
+End Action.
+
+(* ---- every buffer is consumed exactly once ------------------------------------------------ *)
+
+Definition bufs (b : bstore) : list nat := map snd (b_pending b).
+Definition ind (c : bool) : nat := if c then 1%nat else 0%nat.
+
+Lemma count_app : forall k l1 l2, count_nat k (l1 ++ l2) = (count_nat k l1 + count_nat k l2)%nat.
+Proof. intros. unfold count_nat. rewrite filter_app, app_length. reflexivity. Qed.
+
+Lemma count_one : forall k x, count_nat k [x] = ind (Nat.eqb k x).
+Proof. intros. unfold count_nat. cbn. destruct (Nat.eqb k x); reflexivity. Qed.
+
+Lemma bufs_snoc : forall l d buf f, bufs (mkB (l ++ [(d, buf)]) f) = bufs (mkB l f) ++ [buf].
+Proof. intros. unfold bufs. cbn. rewrite map_app. reflexivity. Qed.
+
+Lemma count_nil : forall k, count_nat k [] = 0%nat.
+Proof. reflexivity. Qed.
+
+Lemma bput_buffers : forall batch b cas d buf o b1 cas1 c used ok k,
+  bput batch b cas d buf o = (b1, cas1, c, used, ok) ->
+  (count_nat k used + count_nat k (bufs b1) = count_nat k (bufs b) + ind (Nat.eqb k buf))%nat.
+Proof.
+  intros batch b cas d buf o b1 cas1 c used ok k H. unfold bput in H.
+  destruct (memN d (keys b)).
+  { inversion H; subst; clear H. rewrite count_one. lia. }
+  destruct (batch <=? length (b_pending b))%nat.
+  - destruct (flush_locked b cas (match o with Some x => x | None => no_oracle end))
+      as [[b' cas'] used'] eqn:Efl.
+    destruct (flush_locked_spec _ _ _ _ _ _ Efl) as (Hp & Hu & _).
+    destruct (b_ferr b' =? 0); cbn [negb] in H; inversion H; subst; clear H;
+      unfold bufs; cbn [b_pending]; rewrite ?Hp; cbn [app];
+      rewrite ?map_app, ?count_app; cbn [map snd]; rewrite ?count_one, ?count_nil; lia.
+  - destruct (b_ferr b =? 0); cbn [negb] in H; inversion H; subst; clear H;
+      unfold bufs; cbn [b_pending];
+      rewrite ?map_app, ?count_app; cbn [map snd]; rewrite ?count_one, ?count_nil; lia.
+Qed.
+
+Lemma local_uploads_buffers : forall batch bs b cas i os code b2 cas2 cs used ok code2 k,
+  local_uploads batch b cas bs i os code = (b2, cas2, cs, used, ok, code2) ->
+  (count_nat k used + count_nat k (bufs b2)
+   = count_nat k (bufs b) + ind (Nat.leb i k && Nat.ltb k (i + length bs)))%nat.
+Proof.
+  intros batch bs. induction bs as [|x bs IH]; intros b cas i os code b2 cas2 cs used ok code2 k H.
+  - cbn in H. inversion H; subst; clear H. cbn [length].
+    replace (Nat.leb i k && Nat.ltb k (i + 0))%bool with false.
+    + unfold count_nat at 1. cbn. lia.
+    + destruct (Nat.leb i k) eqn:E1; [|reflexivity]. destruct (Nat.ltb k (i + 0)) eqn:E2; [|reflexivity].
+      apply Nat.leb_le in E1. apply Nat.ltb_lt in E2. lia.
+  - cbn [local_uploads] in H.
+    destruct (bput batch b cas (bl_dig x) i (hd None os)) as [[[[b1 cas1] c] u1] ok1] eqn:Ep.
+    destruct (local_uploads batch b1 cas1 bs (S i) (tl os) (if code =? 0 then oc_ret c else code))
+      as [[[[[b2' cas2'] cs'] u2] ok2] code2'] eqn:El.
+    inversion H; subst; clear H.
+    pose proof (bput_buffers _ _ _ _ _ _ _ _ _ _ _ k Ep) as P.
+    pose proof (IH _ _ _ _ _ _ _ _ _ _ _ k El) as Q.
+    rewrite count_app. cbn [length].
+    assert (ind (Nat.leb i k && Nat.ltb k (i + S (length bs)))
+            = (ind (Nat.eqb k i) + ind (Nat.leb (S i) k && Nat.ltb k (S i + length bs)))%nat) as E.
+    { destruct (Nat.eqb_spec k i), (Nat.leb_spec0 i k), (Nat.ltb_spec0 k (i + S (length bs))),
+        (Nat.leb_spec0 (S i) k), (Nat.ltb_spec0 k (S i + length bs)); cbn; try reflexivity; exfalso; lia. }
+    rewrite E. lia.
+Qed.
+
+Lemma buffers_consumed_once_l : forall batch b cas a ao b2 cas2 o fits,
+  run_action batch b cas a ao = (b2, cas2, o, fits) ->
+  b_pending b = [] ->
+  oa_closes o = repeat 1%nat (length (a_blobs a)).
+Proof.
+  intros batch b cas a ao b2 cas2 o fits Hrun Hb.
+  destruct (run_action_inv _ _ _ _ _ _ _ _ _ Hrun)
+    as (b1 & cas1 & calls & used1 & ok1 & code1 & fcall & used2 & ok2 & El & Ef & _ & _ & _ & _ & _ & _ & Hcl).
+  rewrite Hcl. destruct (bflush_spec _ _ _ _ _ _ _ _ Ef) as (_ & Hu2 & _).
+  assert (forall k, (k < length (a_blobs a))%nat -> count_nat k (used1 ++ used2) = 1%nat) as Hone.
+  { intros k Hk. pose proof (local_uploads_buffers _ _ _ _ _ _ _ _ _ _ _ _ _ k El) as Q.
+    rewrite count_app, Hu2. fold (bufs b1). rewrite Q. unfold bufs. rewrite Hb.
+    change (count_nat k (map snd [])) with 0%nat.
+    destruct (Nat.leb_spec0 0 k), (Nat.ltb_spec0 k (0 + length (a_blobs a))); cbn [ind andb]; lia. }
+  clear - Hone. generalize (used1 ++ used2) Hone. intros u.
+  generalize (length (a_blobs a)). intros n. 
+  assert (forall s, (forall k, (s <= k < s + n)%nat -> count_nat k u = 1%nat) ->
+          map (fun i => count_nat i u) (seq s n) = repeat 1%nat n) as G.
+  { induction n as [|n IH]; intros s Hs; cbn; [reflexivity|].
+    rewrite Hs by lia. f_equal. apply IH. intros k Hk. apply Hs. lia. }
+  intros H. apply (G 0%nat). intros k Hk. apply H. lia.
+Qed.
+
+(* ---- the monitor holds of the model ----------------------------------------------------------- *)
+
+Lemma run_action_clean : forall batch b cas a ao b2 cas2 o fits,
+  run_action batch b cas a ao = (b2, cas2, o, fits) -> b2 = binit.
+Proof.
+  intros batch b cas a ao b2 cas2 o fits Hrun.
+  destruct (run_action_inv _ _ _ _ _ _ _ _ _ Hrun)
+    as (b1 & cas1 & calls & used1 & ok1 & code1 & fcall & used2 & ok2 & _ & Ef & _).
+  destruct (bflush_spec _ _ _ _ _ _ _ _ Ef) as (H & _). exact H.
+Qed.
+
+Lemma repeat_one_ok : forall n,
+  existsb (fun n => Nat.ltb 1 n) (repeat 1%nat n) = false /\ existsb (Nat.eqb 0) (repeat 1%nat n) = false.
+Proof. induction n as [|n [IH1 IH2]]; cbn [repeat existsb]; [split; reflexivity | rewrite IH1, IH2; split; reflexivity]. Qed.
+
+Lemma p_action_model : forall batch b cas a ao b2 cas2 o fits,
+  run_action batch b cas a ao = (b2, cas2, o, fits) ->
+  b_pending b = [] ->
+  p_action a o = ""%string.
+Proof.
+  intros batch b cas a ao b2 cas2 o fits Hrun Hb. unfold p_action.
+  (* ac_only_complete *)
+  assert (match oa_ac o with
+          | Some rs =>
+            if a_dnc a then "C09:ac-written-do-not-cache"%string
+            else if negb (r_code (oa_resp o) =? 0) then "C09:ac-written-status-not-ok"%string
+            else if negb (r_exit (oa_resp o) =? 0) then "C09:ac-written-nonzero-exit"%string
+            else if negb (forallb (fun d => memN d (oa_cas o)) rs) then "C09:ac-references-missing-blob"%string
+            else ""%string
+          | None => ""%string
+          end = ""%string) as E1.
+  { destruct (oa_ac o) as [rs|] eqn:Eac; [|reflexivity].
+    destruct (ac_only_complete_l _ _ _ _ _ _ _ _ _ Hrun rs Eac) as (H1 & H2 & H3 & H4).
+    rewrite H1, H2, H3. cbn.
+    replace (forallb (fun d => memN d (oa_cas o)) rs) with true; [reflexivity|].
+    symmetry. apply forallb_forall. exact H4. }
+  rewrite E1. clear E1.
+  (* failure_pruned *)
+  assert ((if upload_failed o then
+     if r_code (oa_resp o) =? 0 then "C09:upload-failure-status-ok"%string
+     else if match oa_ac o with Some _ => true | None => false end then "C09:upload-failure-cached"%string
+     else if negb (advertises_nothing (oa_resp o)) then "C09:upload-failure-not-pruned"%string
+     else ""%string
+   else ""%string) = ""%string) as E2.
+  { destruct (upload_failed o) eqn:Euf; [|reflexivity].
+    destruct (failure_pruned_l _ _ _ _ _ _ _ _ _ Hrun Euf) as (H1 & H2 & H3).
+    apply N.eqb_neq in H1. rewrite H1, H2, H3. reflexivity. }
+  rewrite E2. clear E2.
+  assert ((if final_failed o then
+     if r_code (oa_resp o) =? 0 then "C09:final-write-failure-status-ok"%string
+     else if match oa_ac o with Some _ => true | None => false end then "C09:final-write-failure-cached"%string
+     else ""%string
+   else ""%string) = ""%string) as E3.
+  { destruct (final_failed o) eqn:Eff; [|reflexivity].
+    destruct (final_failure_l _ _ _ _ _ _ _ _ _ Hrun Eff) as (H1 & H2).
+    apply N.eqb_neq in H1. rewrite H1, H2. reflexivity. }
+  rewrite E3. clear E3.
+  (* ack_stored_or_reported *)
+  assert ((if (oc_ret (oa_flush o) =? 0) && negb (forallb (fun d => memN d (oa_cas o)) (acked (a_blobs a) (oa_puts o)))
+   then "C09:acked-blob-lost"%string else ""%string) = ""%string) as E4.
+  { destruct (oc_ret (oa_flush o) =? 0) eqn:Ez; [|reflexivity].
+    apply N.eqb_eq in Ez.
+    replace (forallb (fun d => memN d (oa_cas o)) (acked (a_blobs a) (oa_puts o))) with true; [reflexivity|].
+    symmetry. apply forallb_forall. exact (ack_stored_or_reported_l _ _ _ _ _ _ _ _ _ Hrun Ez). }
+  rewrite E4. clear E4.
+  (* buffers_consumed_once *)
+  rewrite (buffers_consumed_once_l _ _ _ _ _ _ _ _ _ Hrun Hb).
+  rewrite repeat_length, Nat.eqb_refl.
+  destruct (repeat_one_ok (length (a_blobs a))) as (R1 & R2). rewrite R1, R2. reflexivity.
+Qed.
+
+(* the monitor never fires on a trace of the model, whatever the scripts and oracles *)
+Lemma trace_ok_l : forall batch l cas,
+  Forall (fun ao => p_action (fst ao) (snd ao) = ""%string) (run_actions batch binit cas l).
+Proof.
+  intros batch l. induction l as [|[a ao] t IH]; intros cas; cbn [run_actions].
+  - constructor.
+  - destruct (run_action batch binit cas a ao) as [[[b' cas'] o] fits] eqn:Er.
+    constructor.
+    + cbn. exact (p_action_model _ _ _ _ _ _ _ _ _ Er eq_refl).
+    + rewrite (run_action_clean _ _ _ _ _ _ _ _ _ Er). apply IH.
 Qed.
